@@ -19,7 +19,7 @@ def hexarea(p):
 
 
 # --------------------------------------------------------------------------------------------- block specs
-def pin_block_spec(rng, kind="fuel", npins=None, pitch=None, coolant="Sodium", hot=True, wire=True, bond=None, liner=False):
+def pin_block_spec(rng, kind="fuel", npins=None, pitch=None, coolant="Sodium", hot=True, wire=True, bond=None, liner=False, overlap=False):
     """A hex pin-type block: [fuel|absorber|shield pins], (bond), clad, (wire), coolant(Derived), duct, intercoolant.
     Returns ordered list of component dicts. Geometry is consistent (positive coolant area)."""
     npins = npins or rng.choice(HEX_PIN_COUNTS[:7])
@@ -55,7 +55,15 @@ def pin_block_spec(rng, kind="fuel", npins=None, pitch=None, coolant="Sodium", h
         fuel_od = clad_id * (rng.uniform(0.75, 0.95) if bond else 1.0)
         if not bond:
             fuel_od = clad_id * 0.999
+        if overlap:
+            # a Void gap between fuel and clad that the hot fuel has closed and overlapped: armi allows the resulting negative gap
+            # area on purpose (Composite.getVolumeFractions documents it); only asked for by name, so other callers' streams are unchanged
+            bond = False
+            fuel_od = clad_id * 0.9996
+            Tf = max(Tf, 550.0)
         comps.append({"name": "fuel", "shape": "Circle", "material": fmat, "Tinput": 25.0, "Thot": Tf, "id": 0.0, "od": fuel_od, "mult": npins})
+        if overlap:
+            comps.append({"name": "gap", "shape": "Circle", "material": "Void", "Tinput": Tc, "Thot": Tc, "id": "fuel.od", "od": "clad.id", "mult": "fuel.mult"})
         if bond:
             comps.append({"name": "bond", "shape": "Circle", "material": coolant, "Tinput": Tc, "Thot": Tc, "id": "fuel.od", "od": "clad.id", "mult": "fuel.mult"})
         comps.append({"name": "clad", "shape": "Circle", "material": smat, "Tinput": 25.0, "Thot": Ts, "id": clad_id, "od": clad_od, "mult": "fuel.mult"})
